@@ -546,6 +546,7 @@ var routePool = []string{
 
 var serverPool = []string{
 	"2001:db8::53", "2001:db8::54", "fd00::53", "fe80::1", "::", "::", "2001:4860:4860::8888", "::1",
+	"fe80::1%eth0", "fe80::1%eth1", "fe80::53%eth0", // zones are not part of what an RA carries
 }
 
 var serverBad = []string{"8.8.8.8", "::ffff:8.8.8.8", "foo", "2001:db8::53/64", ""}
@@ -784,6 +785,10 @@ func genIface(r *vfh.Rand, name string, valid int, small bool) gIface {
 		}
 		if !ok() && nn > 0 && r.Chance(1, 3) {
 			d.names = append(d.names, d.names[0])
+		}
+		if !ok() && r.Chance(1, 4) { // an empty name, anywhere in the list
+			pos := r.Intn(len(d.names) + 1)
+			d.names = append(d.names[:pos:pos], append([]string{""}, d.names[pos:]...)...)
 		}
 		i.dnssl = append(i.dnssl, d)
 	}
